@@ -216,6 +216,9 @@ def _eval_inner(case):
         poses_ = [v for v in spec["vertices"] if v["id"] < 1000]
         lms[0]["pose"] = list(tmap[lms[0]["id"]])
         poses_[0]["fixed"] = False
+        # the first POSE is free and starts away from its true place (SF.make seeds the anchor at the truth)
+        k_ = case["kind"]
+        poses_[0]["pose"] = G.compose(k_, tmap[poses_[0]["id"]], G.exp_compact(k_, [0.05, -0.04, 0.03] if k_ == "SE2" else [0.03, -0.02, 0.02, 0.01, -0.01, 0.015]))
         mid = poses_[len(poses_) // 2]
         mid["fixed"] = True
         mid["pose"] = list(tmap[mid["id"]])
